@@ -199,7 +199,8 @@ Definition expand_phases (m : mindexer) (others : list phase) : mindexer :=
   else m.
 
 (* MaterialIndexer.mix_from *)
-Inductive src := SrcSelf | SrcSame (v : vec) | SrcOther (v : vec) (pr : list (nat * nat)).
+(* [SrcOther] also records the inlet's package (used only to state theorems) *)
+Inductive src := SrcSelf | SrcSame (v : vec) | SrcOther (op : pkg) (v : vec) (pr : list (nat * nat)).
 Definition inl_phases (self : mindexer) (i : inl) : list phase :=
   match i with ISelf => mphases self | IC c => [cphase c] | IM m => mphases m end.
 (* the scp_data / dcp_data keys: exact phase, else the alias made by the upper/lower-case loop *)
@@ -216,11 +217,11 @@ Definition mcontrib (self : mindexer) (i : inl) : res (list (phase * src)) :=
   | ISelf => Ok (map (fun p => (p, SrcSelf)) (mphases self))
   | IC c => if same_pkg (mpkg self) (cpkg c) then Ok [(cphase c, SrcSame (crow c))]
             else do pr <- overlap (mpkg self) (cpkg c) (nz_keys (crow c));
-                 Ok [(cphase c, SrcOther (crow c) pr)]
+                 Ok [(cphase c, SrcOther (cpkg c) (crow c) pr)]
   | IM m => if same_pkg (mpkg self) (mpkg m)
             then Ok (map2 (fun p r => (p, SrcSame r)) (mphases m) (mrows m))
             else do pr <- overlap (mpkg self) (mpkg m) (nz_keys_rows (psize (mpkg m)) (mrows m));
-                 Ok (map2 (fun p r => (p, SrcOther r pr)) (mphases m) (mrows m))
+                 Ok (map2 (fun p r => (p, SrcOther (mpkg m) r pr)) (mphases m) (mrows m))
   end.
 Fixpoint mcontrib_all (self : mindexer) (l : list inl) : res (list (phase * src)) :=
   match l with
@@ -231,12 +232,12 @@ Definition goes_to (phases : list phase) (p : phase) (k : phase) : bool :=
   match resolve phases k with Ok q => phase_eqb p q | Err _ => false end.
 Definition same_of (cs : list (phase * src)) (phases : list phase) (p : phase) : list (option vec) :=
   flat_map (fun c => if goes_to phases p (fst c)
-                     then match snd c with SrcSelf => [None] | SrcSame v => [Some v] | SrcOther _ _ => [] end
+                     then match snd c with SrcSelf => [None] | SrcSame v => [Some v] | SrcOther _ _ _ => [] end
                      else []) cs.
 Definition other_of (cs : list (phase * src)) (phases : list phase) (p : phase)
   : list (vec * list (nat * nat)) :=
   flat_map (fun c => if goes_to phases p (fst c)
-                     then match snd c with SrcOther v pr => [(v, pr)] | _ => [] end
+                     then match snd c with SrcOther _ v pr => [(v, pr)] | _ => [] end
                      else []) cs.
 Definition mmix_from (self0 : mindexer) (others : list inl) : res mindexer :=
   let other_phases := flat_map (inl_phases self0) others in
@@ -481,8 +482,8 @@ Fixpoint remap_rows (left right : pkg) (rows : list vec) : res (list vec) :=
   | [] => Ok []
   | r :: t => do x <- remap left right r; do y <- remap_rows left right t; Ok (x :: y)
   end.
-Definition out_rows (fpkg : pkg) (phases : list phase) (rows : list vec) (out : stream) : res stream :=
-  do o1 <- set_phases out phases;
+(* an outlet whose phases were already set to the feed's receives the split rows, phase by phase *)
+Definition fill_rows (fpkg : pkg) (rows : list vec) (o1 : stream) : res stream :=
   match o1 with
   | SS c => match rows with
             | [r] => put_values fpkg r o1
@@ -499,8 +500,10 @@ Definition split_to (f s1 s2 : stream) (sp : splitv) (eb : bool) : res (stream *
   | MS m =>
     if eb || is_multi s1 || is_multi s2 then
       let vr := split_rows (mrows m) sp in
-      do a <- out_rows (mpkg m) (mphases m) (fst vr) s1;
-      do b <- out_rows (mpkg m) (mphases m) (snd vr) s2;
+      do o1 <- set_phases s1 (mphases m);            (* s1.phases = phases; s2.phases = phases *)
+      do o2 <- set_phases s2 (mphases m);
+      do a <- fill_rows (mpkg m) (fst vr) o1;
+      do b <- fill_rows (mpkg m) (snd vr) o2;
       Ok (a, b)
     else split_single (mpkg m) Pl (vsum (psize (mpkg m)) (mrows m)) s1 s2 sp false
   end.
